@@ -248,9 +248,67 @@ func migrateScenario(name, text string, dc map[int]string, second bool) *sess.Sc
 	return sc
 }
 
+const addrC = "10.0.0.3:443"
+
+type chainExpect struct {
+	dials []string
+	ops   []struct {
+		errMsg string // "" = the request's own answer
+		code   int
+	}
+}
+
+// chainScenario: a history of migrations over three data centres. answers[server][tag] is the error text the
+// server gives for that request ("" = the normal answer).
+func chainScenario(name string, calls []sess.Call, answers map[string]map[int32]string, exp chainExpect) *sess.Scenario {
+	sc := &sess.Scenario{Name: name, Salt: 8, Callers: [][]sess.Call{calls}}
+	sc.Setup = func(w *sess.World) {
+		mk := func(addr string, srv *rpcsrv.Server) {
+			a := answers[addr]
+			srv.Override = func(tag int32, kind rpcsrv.Kind) []byte {
+				if text, ok := a[tag]; ok && text != "" {
+					code := int32(303)
+					if !strings.HasPrefix(text, "PHONE_MIGRATE") {
+						code = 400
+					}
+					return (&tlw.W{}).U32(0x2144ca19).I32(code).Str([]byte(text)).B
+				}
+				return nil
+			}
+		}
+		b, c := rpcsrv.New(sess.TestKey(), 8), rpcsrv.New(sess.TestKey(), 8)
+		b.Clock, c.Clock = w.S.Clock, w.S.Clock
+		w.Net.Servers[addrB], w.Net.Servers[addrC] = b, c
+		mk(sess.Addr, w.Srv)
+		mk(addrB, b)
+		mk(addrC, c)
+		w.Extra = map[string]any{"chain": exp}
+	}
+	sc.AfterConnect = func(w *sess.World) { w.M.SetDCList(map[int]string{2: addrB, 4: addrC}) }
+	return sc
+}
+
 func scenarios() []*sess.Scenario {
 	cfg := map[int]string{2: addrB}
+	obj := func(t int32) sess.Call { return sess.Call{Tag: t, Kind: rpcsrv.KObj} }
+	type opx = struct {
+		errMsg string
+		code   int
+	}
 	return []*sess.Scenario{
+		// histories of several migrations: state kept from one migration must not leak into the next
+		chainScenario("H-migrate-error-migrate", []sess.Call{obj(1), obj(2)},
+			map[string]map[int32]string{sess.Addr: {1: "PHONE_MIGRATE_2"}, addrB: {1: "PHONE_NUMBER_INVALID", 2: "PHONE_MIGRATE_4"}},
+			chainExpect{dials: []string{sess.Addr, addrB, addrC}, ops: []opx{{"PHONE_NUMBER_INVALID", 400}, {"", 0}}}),
+		chainScenario("H-migrate-twice-in-a-row", []sess.Call{obj(1)},
+			map[string]map[int32]string{sess.Addr: {1: "PHONE_MIGRATE_2"}, addrB: {1: "PHONE_MIGRATE_4"}},
+			chainExpect{dials: []string{sess.Addr, addrB, addrC}, ops: []opx{{"", 0}}}),
+		chainScenario("H-migrate-ok-migrate-back-and-forth", []sess.Call{obj(1), obj(2), obj(3)},
+			map[string]map[int32]string{sess.Addr: {1: "PHONE_MIGRATE_2"}, addrB: {2: "PHONE_MIGRATE_4"}, addrC: {3: "PHONE_MIGRATE_2"}},
+			chainExpect{dials: []string{sess.Addr, addrB, addrC, addrB}, ops: []opx{{"", 0}, {"", 0}, {"", 0}}}),
+		chainScenario("H-flood-5-then-flood-30", []sess.Call{obj(1), obj(2)},
+			map[string]map[int32]string{sess.Addr: {1: "FLOOD_WAIT_5", 2: "FLOOD_WAIT_30"}},
+			chainExpect{dials: []string{sess.Addr}, ops: []opx{{"FLOOD_WAIT_X|5", 400}, {"FLOOD_WAIT_X|30", 400}}}),
 		{Name: "B-rpc-error-among-callers", Salt: 8, Opt: rpcsrv.Options{Reorder: true, Container: true},
 			Callers: [][]sess.Call{{{Tag: 1, Kind: rpcsrv.KObj}}, {{Tag: 2, Kind: rpcsrv.KErr}}, {{Tag: 3, Kind: rpcsrv.KBool}}}},
 		migrateScenario("M-configured", "PHONE_MIGRATE_2", cfg, false),
@@ -287,6 +345,10 @@ func migrate(run *vr.Run) {
 
 func judgeMigrate(run *vr.Run, sc *sess.Scenario, w *sess.World, choices []int) {
 	rep := sess.Replay(sc, choices)
+	if exp, ok := w.Extra["chain"].(chainExpect); ok {
+		judgeChain(run, sc, w, choices, exp)
+		return
+	}
 	if sc.Name == "B-rpc-error-among-callers" {
 		if sess.JudgeAlive(run, sc, w, choices) {
 			sess.JudgeCalls(run, sc, w, choices)
@@ -328,5 +390,40 @@ func judgeMigrate(run *vr.Run, sc *sess.Scenario, w *sess.World, choices []int) 
 	}
 	if len(w.Net.Dials) != 1 {
 		run.Violation("migrate|dialled|"+sc.Name, fmt.Sprintf("%s: dialled %v", sc.Name, w.Net.Dials), rep)
+	}
+}
+
+func judgeChain(run *vr.Run, sc *sess.Scenario, w *sess.World, choices []int, exp chainExpect) {
+	rep := sess.Replay(sc, choices)
+	if w.Fatal != nil {
+		run.Violation(fmt.Sprintf("chain|fatal|%s|%s", sc.Name, vr.MsgClass(w.Fatal.Msg)), fmt.Sprintf("%s: goroutine %s panics: %s", sc.Name, w.Fatal.Thread, w.Fatal.Msg), rep)
+		return
+	}
+	for i, r := range w.Results {
+		if i >= len(exp.ops) {
+			break
+		}
+		e := exp.ops[i]
+		id := fmt.Sprintf("%s op %d", sc.Name, i)
+		switch {
+		case r.Panic != "":
+			run.Violation(fmt.Sprintf("chain|caller-panic|%s|op%d", sc.Name, i), id+": "+r.Panic, rep)
+		case !r.Returned:
+			run.Violation(fmt.Sprintf("chain|never-returns|%s|op%d", sc.Name, i), fmt.Sprintf("%s: blocked %v; dials %v", id, w.Stalled(), w.Net.Dials), rep)
+			return
+		case e.errMsg == "":
+			if r.Err != nil || !reflect.DeepEqual(r.Val, &sess.VRes{Tag: r.Call.Tag}) {
+				run.Violation(fmt.Sprintf("chain|wrong-result|%s|op%d", sc.Name, i), fmt.Sprintf("%s: got (%v, %v), want its own answer; dials %v", id, r.Val, r.Err, w.Net.Dials), rep)
+			}
+		default:
+			want := strings.SplitN(e.errMsg, "|", 2)
+			ec, ok := r.Err.(*mtproto.ErrResponseCode)
+			if !ok || ec.Message != want[0] || ec.Code != e.code || (len(want) == 2 && fmt.Sprint(ec.AdditionalInfo) != want[1]) {
+				run.Violation(fmt.Sprintf("chain|wrong-error|%s|op%d", sc.Name, i), fmt.Sprintf("%s: got (%v, %#v), want error %s code %d", id, r.Val, r.Err, e.errMsg, e.code), rep)
+			}
+		}
+	}
+	if !reflect.DeepEqual(w.Net.Dials, exp.dials) {
+		run.Violation("chain|dials|"+sc.Name, fmt.Sprintf("%s: dialled %v, want %v", sc.Name, w.Net.Dials, exp.dials), rep)
 	}
 }
